@@ -59,6 +59,17 @@ fn spelling(name: &str, info: &ItemInfo, prefix: &str) -> String {
             forms.push(lbl.to_string());
         }
     }
+    // Go's uppercase_acronyms changes the case of parts of a name and nothing else: the label (which spelling was
+    // meant) is the same, only the exact agreement between use and definition is what the check decides
+    if forms.is_empty() {
+        for (lbl, n) in [("original", Some(info.original.clone())), ("renamed", info.renamed.clone())] {
+            if let Some(n) = n {
+                if name.eq_ignore_ascii_case(&n) {
+                    forms.push(lbl.to_string());
+                }
+            }
+        }
+    }
     if forms.is_empty() {
         "other".into()
     } else {
@@ -244,6 +255,10 @@ pub fn run(ctx: &Ctx) -> (Spec, Report) {
                 .filter(|l| !((generic_enum || generic_alias) && matches!(l, LangId::Go | LangId::Python)))
                 .map(|l| {
                     let mut c = LangCfg::basic(*l);
+                    if *l == LangId::Go && rng.coin() {
+                        // acronym upper-casing rewrites type names: definitions and references have to agree under it
+                        c.uppercase_acronyms = vec!["ID".into(), "URL".into(), "Info".into()];
+                    }
                     if matches!(l, LangId::Swift | LangId::Kotlin) && rng.coin() {
                         c.prefix = "OP".into();
                     }
